@@ -1,13 +1,33 @@
 (* Payload.v — model of the payload helpers at the end of
-   src/koreo/resource_function/reconcile/__init__.py:
-   _strip_koreo_directives, _prepare_for_api, _extract_last_applied,
-   _updated_owner_refs, _validate_owner_reffed; plus RFC 7386 merge-patch
-   (what the API server / the harness's in-memory cluster does with a PATCH).
-   Proof-free. *)
+   src/koreo/resource_function/reconcile/__init__.py (line numbers of the
+   snapshot the model was reviewed against):
+     _strip_koreo_directives  857-870      strip
+     _prepare_for_api         841-854      prepare_for_api
+     _extract_last_applied    822-838      extract_last_applied_r (faithful), extract_last_applied
+     _updated_owner_refs      742-780      updated_owner_refs_r   (faithful), updated_owner_refs
+     _validate_owner_reffed   783-819      validate_owner_reffed_r (faithful), validate_owner_reffed
+   their two call sites
+     _create_api_resource     663-683      create_payload
+     reconcile_krm_resource   315-320, 331, 357-365   patch_payload, needs_update
+   what kr8s does to a body before POSTing it (APIObject.__init__, .raw)   kr8s_post
+   and RFC 7386 merge-patch (what the API server / the harness's in-memory
+   cluster does with a PATCH)                                               merge_patch.
+   Proof-free.  Values are JSON documents (plain Python dict/list/str/int/
+   float/bool/None); celtypes wrappers are outside the model (see notes/C08.md).
+
+   NAMES USED BY OTHER FILES (types are stable): strip, has_directive,
+   prepare_for_api, extract_last_applied, updated_owner_refs,
+   validate_owner_reffed, reffed_truthy, merge_patch, directive_keys,
+   last_applied_key, res/Done/Raised, prepared/body/recorded.
+   The three un-suffixed owner/last-applied functions return a plain value and
+   therefore cannot show the Python exceptions raised on malformed live
+   metadata; the `_r` variants are the line-by-line models (result type [res])
+   and `Payload_proofs.v` proves that the un-suffixed ones agree with them
+   whenever the `_r` variant is [Done] (lemmas *_r_done). *)
 From Koreo Require Export Json.
 Local Open Scope list_scope.
 
-(* The constants that DEFINE the properties are written here by hand and are
+(* The constants that DEFINE the property are written here by hand and are
    NOT read from koreo.constants at run time. *)
 Definition directive_keys : list string :=
   ["x-koreo-compare-as-set"; "x-koreo-compare-as-map"; "x-koreo-compare-last-applied"].
@@ -15,7 +35,9 @@ Definition is_directive (k : string) : bool := mem_str k directive_keys.
 Definition last_applied_key : string := "koreo.dev/last-applied-configuration".
 
 (* _strip_koreo_directives: drop directive keys from every map, at any depth,
-   through lists too. *)
+   through lists too (`case dict()` rebuilds the dict without the directive
+   keys, in order; `case list()|set()|tuple()` maps over the items; anything
+   else is returned as is). *)
 Fixpoint strip (j : json) : json :=
   match j with
   | JList l => JList (map strip l)
@@ -28,7 +50,7 @@ Fixpoint strip (j : json) : json :=
   | _ => j
   end.
 
-(* does a directive key occur anywhere? *)
+(* does a directive key occur anywhere? (the property's "at any depth") *)
 Fixpoint has_directive (j : json) : bool :=
   match j with
   | JList l => existsb has_directive l
@@ -41,39 +63,47 @@ Fixpoint has_directive (j : json) : bool :=
   | _ => false
   end.
 
-(* json.dumps of the stripped object is kept abstract as "the JSON text of j":
-   the annotation value is modelled as the document itself ([JDoc j] below
-   would need a new constructor, so we keep the annotation as a separate
-   component): a prepared payload is the object plus the document recorded in
-   its last-applied annotation. *)
-Inductive exn := ExKeyError | ExTypeError | ExAttributeError.
+(* Python exceptions are values.  ExValueError stands for json.JSONDecodeError
+   (a ValueError subclass). *)
+Inductive exn := ExKeyError | ExTypeError | ExAttributeError | ExValueError.
 Inductive res (A : Type) := Done (a : A) | Raised (e : exn).
 Arguments Done {A}. Arguments Raised {A}.
 
-(* result of _prepare_for_api: [body] is the object sent, with the annotation
-   entry present under metadata.annotations[last_applied_key] carrying the
-   placeholder [JStr "<last-applied>"]; [recorded] is the document whose JSON
-   text the real code stores there. *)
+Definition bind {A B} (r : res A) (f : A -> res B) : res B :=
+  match r with Done a => f a | Raised e => Raised e end.
+
+(* json.dumps is not modelled.  The result of _prepare_for_api is the pair of
+   [body] — the object returned, with the annotation entry present under
+   metadata.annotations[last_applied_key] carrying the placeholder
+   [JStr "<last-applied>"] — and [recorded], the document whose JSON text the
+   real code stores there (`dumped = json.dumps(prepared)` is taken BEFORE the
+   holder maps and the annotation are added). *)
 Record prepared := { body : json; recorded : json }.
 
 Definition annotation_placeholder : json := JStr "<last-applied>".
 
-(* prepared["metadata"] / ["annotations"] handling of _prepare_for_api:
-   `if "metadata" not in prepared: prepared["metadata"] = {}` etc.
-   Indexing a non-map raises TypeError in Python. *)
+(* d.setdefault(k, {}) as written in the code: `if k not in d: d[k] = {}` *)
+Definition ensure_key (k : string) (kvs : list (string * json)) : list (string * json) :=
+  match lookup k kvs with
+  | Some _ => kvs
+  | None => set_key k (JMap []) kvs
+  end.
+
+(* _prepare_for_api(obj).
+     prepared = strip(obj); dumped = dumps(prepared)
+     if "metadata" not in prepared: prepared["metadata"] = {}
+     if "annotations" not in prepared["metadata"]: prepared["metadata"]["annotations"] = {}
+     prepared["metadata"]["annotations"][KEY] = dumped
+   `in` / item assignment on something that is not a dict raise TypeError for
+   every JSON-shaped value (None, bool, int, float: not iterable; str: `in`
+   works but item access/assignment raises; list: `in` works, str index raises). *)
 Definition prepare_for_api (obj : json) : res prepared :=
   match strip obj with
   | JMap top =>
-      let top1 := match lookup "metadata" top with
-                  | Some _ => top
-                  | None => set_key "metadata" (JMap []) top
-                  end in
+      let top1 := ensure_key "metadata" top in
       match lookup "metadata" top1 with
       | Some (JMap md) =>
-          let md1 := match lookup "annotations" md with
-                     | Some _ => md
-                     | None => set_key "annotations" (JMap []) md
-                     end in
+          let md1 := ensure_key "annotations" md in
           match lookup "annotations" md1 with
           | Some (JMap an) =>
               let an1 := set_key last_applied_key annotation_placeholder an in
@@ -87,29 +117,128 @@ Definition prepare_for_api (obj : json) : res prepared :=
   | _ => Raised ExTypeError
   end.
 
-(* _extract_last_applied: the document recorded in the live object's
-   annotation, if any.  The harness parses the annotation JSON and hands the
-   parsed document to the model as [ann]; the model decides only WHETHER it is
-   used (the chain of truthiness tests). *)
-Definition extract_last_applied (live : json) (ann : option json) : option json :=
-  if negb (py_truthy live) then None else
-  match live with
+(* helpers to STATE the last-applied law (not part of the code) ------------- *)
+
+(* the map stored under [k], if there is one *)
+Definition sub_map (k : string) (kvs : list (string * json)) : option (list (string * json)) :=
+  match lookup k kvs with Some (JMap m) => Some m | _ => None end.
+
+(* the object with the annotation entry deleted (nothing else touched) *)
+Definition remove_annotation (j : json) : json :=
+  match j with
   | JMap top =>
-      match lookup "metadata" top with
-      | Some (JMap md) =>
-          if negb (py_truthy (JMap md)) then None else
-          match lookup "annotations" md with
-          | Some (JMap an) =>
-              if negb (py_truthy (JMap an)) then None else
-              match lookup last_applied_key an with
-              | Some v => if py_truthy v then ann else None
-              | None => None
-              end
-          | _ => None
+      match sub_map "metadata" top with
+      | Some md =>
+          match sub_map "annotations" md with
+          | Some an =>
+              JMap (set_key "metadata"
+                      (JMap (set_key "annotations" (JMap (del_key last_applied_key an)) md)) top)
+          | None => j
           end
-      | _ => None
+      | None => j
+      end
+  | _ => j
+  end.
+
+(* the object with `metadata` / `metadata.annotations` defaulted to {} *)
+Definition ensure_holders (j : json) : json :=
+  match j with
+  | JMap top =>
+      let top1 := ensure_key "metadata" top in
+      match sub_map "metadata" top1 with
+      | Some md => JMap (set_key "metadata" (JMap (ensure_key "annotations" md)) top1)
+      | None => j
+      end
+  | _ => j
+  end.
+
+(* the inverse normalisation: an EMPTY annotations map, then an EMPTY metadata
+   map, are dropped ("a map that exists only to hold the annotation") *)
+Definition drop_empty_holders (j : json) : json :=
+  match j with
+  | JMap top =>
+      match sub_map "metadata" top with
+      | Some md =>
+          let md' := match lookup "annotations" md with
+                     | Some (JMap []) => del_key "annotations" md
+                     | _ => md
+                     end in
+          match md' with
+          | [] => JMap (del_key "metadata" top)
+          | _ => JMap (set_key "metadata" (JMap md') top)
+          end
+      | None => j
+      end
+  | _ => j
+  end.
+
+(* the annotation entry as stored *)
+Definition annotation_of (j : json) : option json :=
+  match j with
+  | JMap top =>
+      match sub_map "metadata" top with
+      | Some md => match sub_map "annotations" md with
+                   | Some an => lookup last_applied_key an
+                   | None => None
+                   end
+      | None => None
       end
   | _ => None
+  end.
+
+(* _extract_last_applied(resource).
+     if not resource: return None
+     metadata = resource.get("metadata");       if not metadata: return None
+     annotations = metadata.get("annotations"); if not annotations: return None
+     last_applied = annotations.get(KEY);       if not last_applied: return None
+     return json.loads(last_applied)
+   `.get` on a truthy non-dict raises AttributeError; json.loads of a non-str
+   raises TypeError, of a str that is not JSON raises JSONDecodeError.
+   json.loads itself is not modelled: [ann] is what it returns on the stored
+   text ([None] = the text does not parse).  The Python result None is [None]
+   (so the text "null" gives [None] too). *)
+Definition get_r (k : string) (j : json) : res (option json) :=
+  match j with
+  | JMap kvs => Done (lookup k kvs)
+  | _ => Raised ExAttributeError
+  end.
+
+Definition opt_truthy (o : option json) : bool :=
+  match o with Some v => py_truthy v | None => false end.
+
+Definition extract_last_applied_r (live : json) (ann : option json) : res (option json) :=
+  if negb (py_truthy live) then Done None else
+  bind (get_r "metadata" live) (fun md =>
+  match md with
+  | None => Done None
+  | Some md =>
+  if negb (py_truthy md) then Done None else
+  bind (get_r "annotations" md) (fun an =>
+  match an with
+  | None => Done None
+  | Some an =>
+  if negb (py_truthy an) then Done None else
+  bind (get_r last_applied_key an) (fun la =>
+  match la with
+  | None => Done None
+  | Some la =>
+  if negb (py_truthy la) then Done None else
+  match la with
+  | JStr _ =>
+      match ann with
+      | Some JNull => Done None
+      | Some doc => Done (Some doc)
+      | None => Raised ExValueError
+      end
+  | _ => Raised ExTypeError
+  end end) end) end).
+
+(* exception-free view (stable type): every raising case reads as "no
+   last-applied".  Agrees with [extract_last_applied_r] whenever that is Done. *)
+Definition extract_last_applied (live : json) (ann : option json) : option json :=
+  match extract_last_applied_r live ann with
+  | Done o => o
+  | Raised _ => None
   end.
 
 (* owner references -------------------------------------------------------- *)
@@ -117,66 +246,104 @@ Definition extract_last_applied (live : json) (ann : option json) : option json 
 Definition uid_of (r : json) : option json :=
   match r with JMap kvs => lookup "uid" kvs | _ => None end.
 
-(* current_ref.get("uid") == trigger_uid, with None for a missing uid *)
-Definition same_uid (a b : json) : bool :=
-  match uid_of a, uid_of b with
+(* current_ref.get("uid") == trigger_uid on two optional values (a missing
+   uid is None) *)
+Definition uid_eq (a b : option json) : bool :=
+  match a, b with
   | Some x, Some y => py_eq x y
   | None, None => true
   | Some JNull, None | None, Some JNull => true
   | _, _ => false
   end.
 
+Definition same_uid (a b : json) : bool := uid_eq (uid_of a) (uid_of b).
+
+(* the loop `for current_ref in owner_refs: if current_ref.get("uid") ==
+   trigger_uid: return …` — stops at the first match; an item that is not a
+   dict and is reached before a match raises AttributeError. *)
+Fixpoint find_ref_r (trigger : option json) (l : list json) : res bool :=
+  match l with
+  | [] => Done false
+  | JMap kvs :: rest =>
+      if uid_eq (lookup "uid" kvs) trigger then Done true else find_ref_r trigger rest
+  | _ :: _ => Raised ExAttributeError
+  end.
+
+(* trigger_uid = owner_ref.get("uid"), then the loop *)
+Definition has_owner_r (owner_ref : json) (l : list json) : res bool :=
+  match owner_ref with
+  | JMap okvs => find_ref_r (lookup "uid" okvs) l
+  | _ => Raised ExAttributeError
+  end.
+
 Inductive owner_result :=
 | OwnerRefs (l : list json)        (* the new ownerReferences list *)
 | OwnerPermFail.                   (* PermFail "Missing resource…" / "Corrupt …" *)
 
-(* _updated_owner_refs(resource_view, owner_ref) *)
-Definition updated_owner_refs (view owner_ref : json) : owner_result :=
+(* the common prefix of both functions: the two `match` statements, the
+   falsiness test and the isinstance test.  [None] = PermFail; [Some None] =
+   "no (or empty) ownerReferences"; [Some (Some l)] = a non-empty list. *)
+Definition live_refs (view : json) : option (option (list json)) :=
   match view with
   | JMap top =>
       match lookup "metadata" top with
-      | None => OwnerPermFail
+      | None => None
       | Some (JMap md) =>
           match lookup "ownerReferences" md with
-          | None => OwnerRefs [owner_ref]
+          | None => Some None
           | Some refs =>
-              if negb (py_truthy refs) then OwnerRefs [owner_ref] else
+              if negb (py_truthy refs) then Some None else
               match refs with
-              | JList l =>
-                  if existsb (fun r => same_uid r owner_ref) l then OwnerRefs l
-                  else OwnerRefs (l ++ [owner_ref])
-              | _ => OwnerPermFail
+              | JList l => Some (Some l)
+              | _ => None
               end
           end
-      | Some _ => OwnerPermFail
+      | Some _ => None
       end
-  | _ => OwnerPermFail
+  | _ => None
+  end.
+
+(* _updated_owner_refs(resource_view, owner_ref) *)
+Definition updated_owner_refs_r (view owner_ref : json) : res owner_result :=
+  match live_refs view with
+  | None => Done OwnerPermFail
+  | Some None => Done (OwnerRefs [owner_ref])
+  | Some (Some l) =>
+      bind (has_owner_r owner_ref l) (fun found =>
+        Done (OwnerRefs (if found then l else l ++ [owner_ref])))
   end.
 
 Inductive reffed_result := Reffed (b : bool) | ReffedPermFail.
 
 (* _validate_owner_reffed(resource_view, owner_ref) *)
-Definition validate_owner_reffed (view owner_ref : json) : reffed_result :=
-  match view with
-  | JMap top =>
-      match lookup "metadata" top with
-      | None => ReffedPermFail
-      | Some (JMap md) =>
-          match lookup "ownerReferences" md with
-          | None => Reffed false
-          | Some refs =>
-              if negb (py_truthy refs) then Reffed false else
-              match refs with
-              | JList l => Reffed (existsb (fun r => same_uid r owner_ref) l)
-              | _ => ReffedPermFail
-              end
-          end
-      | Some _ => ReffedPermFail
-      end
-  | _ => ReffedPermFail
+Definition validate_owner_reffed_r (view owner_ref : json) : res reffed_result :=
+  match live_refs view with
+  | None => Done ReffedPermFail
+  | Some None => Done (Reffed false)
+  | Some (Some l) => bind (has_owner_r owner_ref l) (fun found => Done (Reffed found))
   end.
 
-(* the caller treats a PermFail object as truthy: `if resource_match.match and owner_reffed` *)
+(* exception-free views (stable types): a reference / owner that is not a map
+   reads as "has no uid".  They agree with the `_r` versions whenever those
+   are Done. *)
+Definition updated_owner_refs (view owner_ref : json) : owner_result :=
+  match live_refs view with
+  | None => OwnerPermFail
+  | Some None => OwnerRefs [owner_ref]
+  | Some (Some l) =>
+      if existsb (fun r => same_uid r owner_ref) l then OwnerRefs l
+      else OwnerRefs (l ++ [owner_ref])
+  end.
+
+Definition validate_owner_reffed (view owner_ref : json) : reffed_result :=
+  match live_refs view with
+  | None => ReffedPermFail
+  | Some None => Reffed false
+  | Some (Some l) => Reffed (existsb (fun r => same_uid r owner_ref) l)
+  end.
+
+(* the caller treats a PermFail object as truthy (PermFail defines no
+   __bool__): `if resource_match.match and owner_reffed` / `not owner_reffed` *)
 Definition reffed_truthy (r : reffed_result) : bool :=
   match r with Reffed b => b | ReffedPermFail => true end.
 
@@ -198,4 +365,137 @@ Fixpoint merge_patch (target patch : json) {struct patch} : json :=
                    end
                end) pkvs base)
   | _ => patch
+  end.
+
+(* the two call sites ------------------------------------------------------- *)
+
+Definition opt_str_eqb (a b : option string) : bool :=
+  match a, b with
+  | Some x, Some y => String.eqb x y
+  | None, None => true
+  | _, _ => false
+  end.
+
+(* `owned_resource and owner_namespace == namespace`
+   ([None] = Python None: a cluster-scoped object / parent) *)
+Definition should_own (owned : bool) (owner_ns ns : option string) : bool :=
+  owned && opt_str_eqb owner_ns ns.
+
+(* obj["metadata"]["ownerReferences"] = refs *)
+Definition set_owner_refs (obj : json) (refs : list json) : res json :=
+  match obj with
+  | JMap top =>
+      match lookup "metadata" top with
+      | Some (JMap md) =>
+          Done (JMap (set_key "metadata" (JMap (set_key "ownerReferences" (JList refs) md)) top))
+      | Some _ => Raised ExTypeError
+      | None => Raised ExKeyError
+      end
+  | _ => Raised ExTypeError
+  end.
+
+(* what reaches (or does not reach) the API *)
+Inductive sent :=
+| NoCall                 (* a PermFail was returned before any API call *)
+| Sent (p : prepared).   (* the object handed to kr8s *)
+
+Definition send (obj : json) : res sent :=
+  bind (prepare_for_api obj) (fun p => Done (Sent p)).
+
+(* _create_api_resource, lines 663-683, from the final resource_view on
+   (convert_bools is the identity on JSON documents) *)
+Definition create_payload (owned : bool) (owner_ns ns : option string)
+                          (view owner_ref : json) : res sent :=
+  if should_own owned owner_ns ns then
+    bind (updated_owner_refs_r view owner_ref) (fun r =>
+      match r with
+      | OwnerPermFail => Done NoCall
+      | OwnerRefs l => bind (set_owner_refs view l) send
+      end)
+  else send view.
+
+(* reconcile_krm_resource, lines 315-320: the owner_reffed value *)
+Definition owner_reffed_r (owned : bool) (owner_ns ns : option string)
+                          (live owner_ref : json) : res reffed_result :=
+  if should_own owned owner_ns ns then validate_owner_reffed_r live owner_ref
+  else Done (Reffed true).
+
+(* line 331: `if resource_match.match and owner_reffed: return` (no update) *)
+Definition needs_update (matched : bool) (rr : reffed_result) : bool :=
+  negb (matched && reffed_truthy rr).
+
+(* lines 357-365: the UpdatePatch branch (reached only when [needs_update]) *)
+Definition patch_payload (owned : bool) (owner_ns ns : option string)
+                         (live target owner_ref : json) : res sent :=
+  bind (owner_reffed_r owned owner_ns ns live owner_ref) (fun rr =>
+    if should_own owned owner_ns ns && negb (reffed_truthy rr) then
+      bind (updated_owner_refs_r live owner_ref) (fun r =>
+        match r with
+        | OwnerPermFail => Done NoCall
+        | OwnerRefs l => bind (set_owner_refs target l) send
+        end)
+    else send target).
+
+(* kr8s: APIObject(resource=body, namespace=ns) writes metadata.namespace when
+   ns is not None, and `.raw` (read by create()) re-injects kind/apiVersion.
+   The body always has a metadata map here (prepare_for_api made sure). *)
+Definition kr8s_post (ns : option string) (kind version : string) (b : json) : json :=
+  match b with
+  | JMap top =>
+      let top1 := match ns, sub_map "metadata" top with
+                  | Some n, Some md => set_key "metadata" (JMap (set_key "namespace" (JStr n) md)) top
+                  | _, _ => top
+                  end in
+      JMap (set_key "apiVersion" (JStr version) (set_key "kind" (JStr kind) top1))
+  | _ => b
+  end.
+
+(* the stored object after the cluster applied the PATCH *)
+Definition apply_patch (live : json) (s : sent) : json :=
+  match s with
+  | NoCall => live
+  | Sent p => merge_patch live (body p)
+  end.
+
+(* metadata.ownerReferences of an object, as a list (absent / not a list = []) *)
+Definition owner_refs_of (j : json) : list json :=
+  match j with
+  | JMap top =>
+      match sub_map "metadata" top with
+      | Some md => match lookup "ownerReferences" md with Some (JList l) => l | _ => [] end
+      | None => []
+      end
+  | _ => []
+  end.
+
+(* specification vocabulary (used by the theorem statements only) ----------- *)
+
+(* "j' is j with directive entries deleted, at any depth, and nothing else
+   changed": scalars equal, lists item-wise (same length, same positions),
+   maps entry-wise in order, an entry being dropped iff its key is a directive *)
+Inductive prunes : json -> json -> Prop :=
+| pr_null : prunes JNull JNull
+| pr_bool b : prunes (JBool b) (JBool b)
+| pr_int z : prunes (JInt z) (JInt z)
+| pr_float m e : prunes (JFloat m e) (JFloat m e)
+| pr_str s : prunes (JStr s) (JStr s)
+| pr_list l l' : prunes_list l l' -> prunes (JList l) (JList l')
+| pr_map kvs kvs' : prunes_kvs kvs kvs' -> prunes (JMap kvs) (JMap kvs')
+with prunes_list : list json -> list json -> Prop :=
+| pl_nil : prunes_list [] []
+| pl_cons x x' r r' : prunes x x' -> prunes_list r r' -> prunes_list (x :: r) (x' :: r')
+with prunes_kvs : list (string * json) -> list (string * json) -> Prop :=
+| pk_nil : prunes_kvs [] []
+| pk_drop k v r r' : is_directive k = true -> prunes_kvs r r' -> prunes_kvs ((k, v) :: r) r'
+| pk_keep k v v' r r' : is_directive k = false -> prunes v v' -> prunes_kvs r r' ->
+                        prunes_kvs ((k, v) :: r) ((k, v') :: r').
+
+(* j[k] and j["metadata"][k] (None when absent or when the holder is not a map) *)
+Definition top_lookup (k : string) (j : json) : option json :=
+  match j with JMap top => lookup k top | _ => None end.
+
+Definition meta_lookup (k : string) (j : json) : option json :=
+  match j with
+  | JMap top => match sub_map "metadata" top with Some md => lookup k md | None => None end
+  | _ => None
   end.
